@@ -10,7 +10,7 @@ def plan(S, hist, rng, pending, eod, bare_commit=False):
     becomes empty the expected chain is: pending query, reversal of what it reports, end-of-day"""
     sc = cc.Scenario(S, {"max": 2}).start()
     cfg = sc.cfg
-    open_, nxt = {}, [rng.randrange(1, 9000)]
+    open_, nxt = {}, [rng.choice([0, 9999, rng.randrange(0, 10000)])]
     for op, tok in hist:
         th = tok.encode().hex()
         if op == "begin":
@@ -20,7 +20,7 @@ def plan(S, hist, rng, pending, eod, bare_commit=False):
             elif tok in open_:
                 sc.exp_results.append("Err:Active:inuse")
             else:
-                r = nxt[0]; nxt[0] = nxt[0] % 9998 + 1
+                r = nxt[0]; nxt[0] = (nxt[0] + 1) % 10000
                 sc.exchange(S.reservation(cfg["cur"], cfg["amount"], tok), [S.status_info({0x27: 0, 0x87: r}), S.completion()])
                 open_[tok] = r
                 sc.exp_results.append("Ok")
